@@ -31,8 +31,7 @@ def small_scope(max_rows, names=NAMES_CASE):
         for combo in itertools.product(slots, repeat=n):
             rows = [[ids[i], [l, c, g]] for i, (c, l, g) in enumerate(combo)]
             yield {"source": "dict", "kind": "small-scope", "cols": ["doculect", "concept", "cogid"],
-                   "header": ["language", "CONCEPT", "cogid"], "rows": rows, "q0": q, "ops": [],
-                   "q1": {"entries": [""], "refs": ["cogid"], "items": [], "iter": [], "dst": [], "paps": []}}
+                   "header": ["language", "CONCEPT", "cogid"], "rows": rows, "q0": q, "ops": [], "qs": []}
 
 
 def corpus_cases():
